@@ -573,3 +573,42 @@ class Ctx:
                  len(self.nontrivial), len(self.disagreements), len(self.oracle_failures), len(self.known_hit), wall))
         sys.stdout.flush()
         return 1 if violations else 0
+
+
+def generic_replay(mod, prop, path):
+    """Replay for the checks without a dedicated one: the generators are deterministic in (seed, tier), so the
+    check is run again with the seed and tier recorded in the replay file — without touching evidence or replay
+    files — and the recorded failure is looked up among the failures of this run (same operation, same input).
+    Exit 1: reproduced on the current tree; exit 0: the recorded input now passes."""
+    d = json.load(open(path))
+    ctx = Ctx(prop, d.get("tier", "quick"), int(d.get("seed", 1)))
+    mod.run(ctx)
+    f = d.get("failure")
+
+    def key(x):
+        return (x.get("op"), str(x.get("input"))[:4000])
+    if f:
+        hits = [x for x in ctx.oracle_failures if key(x) == key(f)]
+        if not hits and "input" not in f:
+            hits = [x for x in ctx.oracle_failures if x.get("op") == f.get("op") and x.get("shape") == f.get("shape")]
+        print("recorded : op=%s shape=%s input=%s" % (f.get("op"), f.get("shape"), str(f.get("input"))[:300]))
+        print("recorded : observed=%s expected=%s" % (str(f.get("observed"))[:300], str(f.get("expected"))[:300]))
+        if hits:
+            print("now      : observed=%s" % str(hits[0].get("observed"))[:600])
+            print("REPRODUCED property=%s (direct oracle on the real code, seed %s tier %s)" % (prop, ctx.seed, ctx.tier))
+            return 1
+        print("NOT REPRODUCED: the recorded input passes on the current tree (%d other oracle failures, %d disagreements, "
+              "%d broken obligations in this run)" % (len(ctx.oracle_failures), len(ctx.disagreements), len(ctx.proof_failures)))
+        return 0
+    # a replay of kind "proof obligation or correspondence no longer checks"
+    for pf in ctx.proof_failures[:5]:
+        print("broken obligation: %s" % str({k: str(v)[:400] for k, v in pf.items()}))
+    for dg in ctx.disagreements[:5]:
+        print("disagreement: %s" % str(dg)[:800])
+    if ctx.proof_failures or ctx.disagreements or ctx.oracle_failures:
+        print("REPRODUCED property=%s (%d broken obligations, %d model/implementation disagreements, %d oracle failures)"
+              % (prop, len(ctx.proof_failures), len(ctx.disagreements), len(ctx.oracle_failures)))
+        return 1
+    print("NOT REPRODUCED: every obligation checks and model and implementation agree on the current tree")
+    return 0
+
